@@ -152,3 +152,22 @@ package meta
 //@   ensures (base(result) == base(results) && results != nil) || fresh(result)
 //@   ensures forall j :: j < 0 && 0 <= off(results) + j ==> results[j] == old(results[j])
 //@   ensures base(result) == base(results) ==> off(result) == off(results)
+
+// ---- compilation entry points (C09): ASSUMED shape; the parser verdict is named by parses(pattern, flags) ----
+//@ trusted func Compile
+//@   ensures result1 == nil ==> result0 != nil && parses(pattern, 212) && !result0.longest && result0.pikevm != nil
+//@   ensures !parses(pattern, 212) ==> result1 != nil
+//@ trusted func CompileRegexp
+//@   requires re != nil
+//@   ensures result1 == nil ==> result0 != nil && !result0.longest && result0.pikevm != nil
+// regexp/syntax bounds the height of every tree it returns by 1000; the default configuration must let the NFA
+// compiler descend that far, otherwise Compile rejects patterns regexp accepts
+//@ func DefaultConfig
+//@   props C09
+//@   ensures result.MaxRecursionDepth >= 1000
+
+//@ func (*Engine).SetLongest
+//@   props C10 C07
+//@   requires e != nil && e.pikevm != nil
+//@   modifies e.longest, e.pikevm.*, e.boundedBacktracker.internalState.Longest
+//@   ensures e.longest == longest
